@@ -30,19 +30,24 @@ pub fn matches_spec(act: &Act, spec: &ActionSpec) -> bool {
     }
 }
 
+/// seed value that marks a case whose history is also run through the C API
+pub const CAPI_MARK: u64 = 0xC04C_A910_0000_0001;
+
 impl Prop for C04 {
     type Case = FwCase;
     fn admissible(case: &FwCase) -> bool {
-        crate::props::fw_admissible(case)
+        // the C-API pass needs machines that are deterministic by construction (its random source
+        // is its own): only the generator's own "capi" cases carry the mark
+        case.seed != CAPI_MARK && crate::props::fw_admissible(case)
     }
 
     const ID: &'static str = "C04";
-    const RULE: &'static str = "case = 0..=5 validated machines x fractions x history with batches of 0..=40 events (profiles: constant dists with scripted words; all 11 families; unbounded/heavy-tailed/huge dists on timeouts and durations). Non-trivial: some call returned >=2 actions, or a machine was scheduled more than once within one call (step log), or a returned timeout/duration was clamped to exactly 24 h, or a machine that had reached END was addressed by a later event. Distinct = distinct hash of the whole case.";
+    const RULE: &'static str = "case = 0..=5 validated machines x fractions x history with batches of 0..=40 events (profiles: constant dists with scripted words; all 11 families; unbounded/heavy-tailed/huge dists on timeouts and durations; 'capi': deterministic machines whose history is additionally run through the C API with a canary-guarded buffer of num_machines entries and a garbage-initialised count, every call incl. empty ones compared with the Rust framework). Non-trivial: some call returned >=2 actions, or a machine was scheduled more than once within one call (step log), or a returned timeout/duration was clamped to exactly 24 h, or a machine that had reached END was addressed by a later event. Distinct = distinct hash of the whole case.";
 
     fn profiles(tier: Tier) -> Vec<Profile> {
         match tier {
-            Tier::Quick => vec![prof("const", 60_000), prof("wild", 30_000), prof("huge", 42_000), prof("end", 30_000)],
-            Tier::Thorough => vec![prof("const", 800_000), prof("wild", 400_000), prof("huge", 500_000), prof("end", 300_000)],
+            Tier::Quick => vec![prof("const", 60_000), prof("wild", 30_000), prof("huge", 42_000), prof("end", 30_000), prof("capi", 12_000)],
+            Tier::Thorough => vec![prof("const", 800_000), prof("wild", 400_000), prof("huge", 500_000), prof("end", 300_000), prof("capi", 150_000)],
         }
     }
 
@@ -78,12 +83,47 @@ impl Prop for C04 {
                 mp.p_counter = 0.6;
                 mp.p_limit = 0.5;
             }
+            "capi" => {
+                // the same contract at the C API, whose caller buffer is sized num_machines:
+                // deterministic machines (the C API draws from its own random source)
+                let mp = crate::props::c20::deterministic_params();
+                let hp = HistParams { max_calls: 30, max_batch: 8, ..HistParams::default() };
+                return fw_case(0..=6, &mp, &hp, true, 0)
+                    .prop_map(|mut c| {
+                        c.machines = c.machines.into_iter().map(crate::props::c20::clock_independent).collect();
+                        c.max_blocking_frac = Fx(0.0);
+                        c.seed = CAPI_MARK;
+                        c
+                    })
+                    .boxed();
+            }
             _ => panic!("unknown profile"),
         }
         fw_case(0..=5, &mp, &hp, true, w)
     }
 
     fn check(case: &FwCase, obs: &mut Obs) -> Result<(), Failure> {
+        if case.seed == CAPI_MARK {
+            // the C API face: output buffer between canaries, count pre-set to garbage, every call
+            // (also the empty ones) compared with the Rust framework, which the code below holds to
+            // the contract on the same history
+            let run = crate::props::c20::Case::Run {
+                machines: case.machines.clone(),
+                padding_frac: case.max_padding_frac,
+                batches: case.calls.iter().map(|c| c.events.clone()).collect(),
+                trailing_newline: false,
+            };
+            let mut o2 = Obs::default();
+            <crate::props::c20::C20 as Prop>::check(&run, &mut o2)
+                .map_err(|f| Failure { signature: format!("c-api: {}", f.signature), detail: f.detail })?;
+            obs.hit("c_api_history");
+            if case.calls.iter().any(|c| c.events.is_empty()) {
+                obs.hit("c_api_empty_batch");
+            }
+            if o2.nontrivial {
+                obs.nontrivial();
+            }
+        }
         let machines = build_machines(&case.machines)
             .unwrap_or_else(|e| panic!("generator produced a machine that Machine::new rejects: {e}"));
         let n = machines.len();
@@ -191,12 +231,13 @@ impl Prop for C04 {
     }
 
     fn required_classes() -> Vec<&'static str> {
-        vec!["clamped_to_24h", "two_or_more_actions", "rescheduled_within_call", "event_for_ended_machine", "zero_machines"]
+        vec!["clamped_to_24h", "two_or_more_actions", "rescheduled_within_call", "event_for_ended_machine", "zero_machines", "c_api_history", "c_api_empty_batch"]
     }
 
     fn assumptions() -> Vec<&'static str> {
         vec![
             "END status is read from the verif hook's snapshot after each call",
+            "the C API draws from its own random source, so its pass uses machines that are deterministic by construction (probability-1 transitions, constant distributions, no wall-clock dependent limits) and compares every call with the Rust framework on the same history",
             "durations are the harness's virtual u64-microsecond type, so the 24 h bound is checked on exactly the value Duration::from_micros received",
         ]
     }
